@@ -93,6 +93,14 @@ impl Val {
     pub fn text(s: &str) -> Val {
         Val::Text(s.to_string())
     }
+    pub fn over_budget(&self) -> bool {
+        match self {
+            Val::Bad(s) => s == OVER_BUDGET,
+            Val::Pair(l, r) | Val::Range(l, r) | Val::Concat(l, r) | Val::Slice(l, r) | Val::Partial(l, r) => l.over_budget() || r.over_budget(),
+            Val::List(items) => items.iter().any(|i| i.over_budget()),
+            _ => false,
+        }
+    }
     pub fn is_bad(&self) -> bool {
         match self {
             Val::Bad(_) => true,
@@ -161,16 +169,25 @@ fn bad<E: std::fmt::Debug>(what: &str, _e: E) -> Val {
 
 /// Structural read-back of the value at `addr`, through the public getters only.
 pub fn read_val<D: GD>(d: &D, addr: usize) -> Val {
-    read_val_depth(d, addr, 0)
+    let mut budget = NODE_BUDGET;
+    read_val_depth(d, addr, 0, &mut budget)
 }
+
+/// values are read back as trees; shared sub-values are expanded, so a budget bounds the work
+pub const NODE_BUDGET: usize = 6000;
+pub const OVER_BUDGET: &str = "over-node-budget";
 
 const MAX_DEPTH: usize = 64;
 const MAX_ITEMS: usize = 4096;
 
-pub fn read_val_depth<D: GD>(d: &D, addr: usize, depth: usize) -> Val {
+pub fn read_val_depth<D: GD>(d: &D, addr: usize, depth: usize, budget: &mut usize) -> Val {
     if depth > MAX_DEPTH {
         return Val::Bad("depth".into());
     }
+    if *budget == 0 {
+        return Val::Bad(OVER_BUDGET.into());
+    }
+    *budget -= 1;
     let t = match d.get_data_type(addr) {
         Ok(t) => t,
         Err(e) => return bad("get_data_type", e),
@@ -265,23 +282,23 @@ pub fn read_val_depth<D: GD>(d: &D, addr: usize, depth: usize) -> Val {
             Val::SymList(s)
         }
         GarnishDataType::Pair => match d.get_pair(addr) {
-            Ok((l, r)) => Val::Pair(Box::new(read_val_depth(d, l, depth + 1)), Box::new(read_val_depth(d, r, depth + 1))),
+            Ok((l, r)) => Val::Pair(Box::new(read_val_depth(d, l, depth + 1, budget)), Box::new(read_val_depth(d, r, depth + 1, budget))),
             Err(e) => bad("get_pair", e),
         },
         GarnishDataType::Range => match d.get_range(addr) {
-            Ok((l, r)) => Val::Range(Box::new(read_val_depth(d, l, depth + 1)), Box::new(read_val_depth(d, r, depth + 1))),
+            Ok((l, r)) => Val::Range(Box::new(read_val_depth(d, l, depth + 1, budget)), Box::new(read_val_depth(d, r, depth + 1, budget))),
             Err(e) => bad("get_range", e),
         },
         GarnishDataType::Concatenation => match d.get_concatenation(addr) {
-            Ok((l, r)) => Val::Concat(Box::new(read_val_depth(d, l, depth + 1)), Box::new(read_val_depth(d, r, depth + 1))),
+            Ok((l, r)) => Val::Concat(Box::new(read_val_depth(d, l, depth + 1, budget)), Box::new(read_val_depth(d, r, depth + 1, budget))),
             Err(e) => bad("get_concatenation", e),
         },
         GarnishDataType::Slice => match d.get_slice(addr) {
-            Ok((l, r)) => Val::Slice(Box::new(read_val_depth(d, l, depth + 1)), Box::new(read_val_depth(d, r, depth + 1))),
+            Ok((l, r)) => Val::Slice(Box::new(read_val_depth(d, l, depth + 1, budget)), Box::new(read_val_depth(d, r, depth + 1, budget))),
             Err(e) => bad("get_slice", e),
         },
         GarnishDataType::Partial => match d.get_partial(addr) {
-            Ok((l, r)) => Val::Partial(Box::new(read_val_depth(d, l, depth + 1)), Box::new(read_val_depth(d, r, depth + 1))),
+            Ok((l, r)) => Val::Partial(Box::new(read_val_depth(d, l, depth + 1, budget)), Box::new(read_val_depth(d, r, depth + 1, budget))),
             Err(e) => bad("get_partial", e),
         },
         GarnishDataType::List => {
@@ -295,7 +312,7 @@ pub fn read_val_depth<D: GD>(d: &D, addr: usize, depth: usize) -> Val {
             let mut items = Vec::with_capacity(len);
             for i in 0..len {
                 match d.get_list_item(addr, SimpleNumber::Integer(i as i32)) {
-                    Ok(Some(a)) => items.push(read_val_depth(d, a, depth + 1)),
+                    Ok(Some(a)) => items.push(read_val_depth(d, a, depth + 1, budget)),
                     Ok(None) => return Val::Bad("get_list_item-none".into()),
                     Err(e) => return bad("get_list_item", e),
                 }
@@ -337,7 +354,7 @@ pub fn read_list_lookups<D: GD>(d: &D, addr: usize) -> Vec<(u64, Val)> {
 
 /// Deep keyed view: lookups of this list and of every list nested in it.
 pub fn read_lookups_deep<D: GD>(d: &D, addr: usize, depth: usize, out: &mut Vec<(u64, Val)>) {
-    if depth > 16 {
+    if depth > 6 || out.len() > 200 {
         return;
     }
     match d.get_data_type(addr) {
